@@ -406,3 +406,21 @@ CHECKS["C06"]["harnesses"].append(
 CHECKS["C09"]["harnesses"].append(
     dict(_HTTP, harness="Harness_C09_routing", setup="Setup_C09_routing", reach=["c09.routing.executed", "c09.routing.refused"], quick={"sample_models": 30, "sample_every": 11},
          what="transport selection: both orders of the five HTTP transports x method GET/POST/PUT x 8 request Content-Types x document in the body (query / mutation / named mutation) x document in the URL: a GET never executes a mutation, at most one operation runs, status follows the outcome, never gqlgen's own panic"))
+
+CHECKS["C06"]["harnesses"].append(
+    {"probe": "core", "harness": "Harness_C06_sharedVariables", "setup": "Setup_C06_schedules", "reach": ["c06.sharedvars"], "workers": 8, "race": True,
+     "configs_quick": ["single"], "configs_thorough": ["single", "wl2", "follow"], "quick": {"sample_models": 6, "sample_every": 9},
+     "what": "one request variable (input objects leaving defaulted fields out) feeding the arguments of 4 concurrently resolved fields / list elements: coerced values, variables unmodified, race check on every completion order"})
+
+CHECKS["C04"]["harnesses"].append(
+    {"probe": "core", "harness": "Harness_C04_serializePanic", "setup": "Setup_C04_serializePanic", "reach": ["c04.serializepanic"], "workers": 4, "sched": "first",
+     "configs_quick": ["single"], "configs_thorough": ["single", "follow", "funcsyn"], "quick": {"sample_models": 3},
+     "what": "a custom scalar panicking while the response is serialised (generated Exec), then a fault-free operation in the same process: the panic reaches the transport, and the next operation is answered exactly like the reference"})
+
+# the websocket reader loop is also a transport under C05 (stop / close must cancel, nothing left running) and C07
+# (frames of one operation never carry another operation's id)
+for _p in ("C05", "C07"):
+    CHECKS[_p]["harnesses"].append(
+        dict(_WS, harness="Harness_C11_run", reach=["c11.run", "c11.run.op"], race=True, sched_confirm=True,
+             quick={"params": {"maxlen": 2}, "sample_models": 8, "sample_every": 31}, thorough={"params": {"maxlen": 3}, "workers": 12, "sample_models": 12, "sample_every": 301},
+             what="websocket reader loop on every client script of <=2 [3] frames with long-lived operations: per-id frames, stop / close cancel every affected operation, all goroutines end (shared with C11)"))
